@@ -133,7 +133,7 @@ func (p *Proxy) OnEvent(event proxycore.Event) {
 			// client's writer goroutine encodes on its own.
 			frm := frame.NewFrame(p.cluster.NegotiatedVersion, -1, evt.Message)
 			err := cl.conn.Write(proxycore.SenderFunc(func(writer io.Writer) error {
-				return cl.codec.EncodeFrame(frm, writer)
+				return cl.getCodec().EncodeFrame(frm, writer)
 			}))
 			cl.conn.LocalAddr()
 			if err != nil {
@@ -553,11 +553,24 @@ type client struct {
 	compression         string
 	preparedSystemQuery map[[16]byte]interface{}
 	preparedSelectQuery map[[16]byte]interface{}
-	codec               frame.RawCodec
+	codecMu             sync.RWMutex
+	codec               frame.RawCodec // replaced by a STARTUP that asks for compression; read by the writer and by backend readers
+}
+
+func (c *client) getCodec() frame.RawCodec {
+	c.codecMu.RLock()
+	defer c.codecMu.RUnlock()
+	return c.codec
+}
+
+func (c *client) setCodec(codec frame.RawCodec) {
+	c.codecMu.Lock()
+	defer c.codecMu.Unlock()
+	c.codec = codec
 }
 
 func (c *client) Receive(reader io.Reader) error {
-	raw, err := c.codec.DecodeRawFrame(reader)
+	raw, err := c.getCodec().DecodeRawFrame(reader)
 	if err != nil {
 		if !errors.Is(err, io.EOF) {
 			c.proxy.logger.Error("unable to decode frame", zap.Error(err))
@@ -572,7 +585,7 @@ func (c *client) Receive(reader io.Reader) error {
 		return nil
 	}
 
-	body, err := c.codec.DecodeBody(raw.Header, codecs.NewFrameBodyReader(raw.Body))
+	body, err := c.getCodec().DecodeBody(raw.Header, codecs.NewFrameBodyReader(raw.Body))
 	if err != nil {
 		c.proxy.logger.Error("unable to decode body", zap.Error(err))
 		return err
@@ -587,7 +600,7 @@ func (c *client) Receive(reader io.Reader) error {
 	case *message.Startup:
 		if compression, ok := msg.Options["COMPRESSION"]; ok {
 			if codec, ok := codecs.CustomRawCodecsWithCompression[strings.ToLower(compression)]; ok {
-				c.codec = codec
+				c.setCodec(codec)
 				c.compression = compression
 			} else {
 				c.proxy.logger.Error("unsupported compression type used by client", zap.String("compression", compression))
@@ -876,7 +889,7 @@ func (c *client) interceptSystemQuery(hdr *frame.Header, stmt interface{}) {
 
 func (c *client) send(hdr *frame.Header, msg message.Message) {
 	_ = c.conn.Write(proxycore.SenderFunc(func(writer io.Writer) error {
-		return c.codec.EncodeFrame(frame.NewFrame(hdr.Version, hdr.StreamId, msg), writer)
+		return c.getCodec().EncodeFrame(frame.NewFrame(hdr.Version, hdr.StreamId, msg), writer)
 	}))
 }
 
@@ -939,7 +952,7 @@ func (c *client) maybeOverrideUnsupportedWriteConsistency(isSelect bool, raw *fr
 // protocol library accounts for a tracing ID that only responses contain.)
 func (c *client) reencodeFrame(raw *frame.RawFrame, body *frame.Body) interface{} {
 	var buf bytes.Buffer
-	if err := c.codec.EncodeBody(raw.Header, body, &buf); err != nil {
+	if err := c.getCodec().EncodeBody(raw.Header, body, &buf); err != nil {
 		c.proxy.logger.Error("unable to re-encode frame with overridden consistency, forwarding it unmodified", zap.Error(err))
 		return raw
 	}
@@ -963,7 +976,7 @@ func (c *client) maybeStorePreparedMetadata(raw *frame.RawFrame, isSelect bool, 
 	logger := c.proxy.logger
 
 	if prepareMsg, ok := msg.(*message.Prepare); ok && raw.Header.OpCode == primitive.OpCodeResult { // Prepared result
-		frm, err := c.codec.ConvertFromRawFrame(raw)
+		frm, err := c.getCodec().ConvertFromRawFrame(raw)
 		if err != nil {
 			logger.Error("error attempting to decode prepared result message")
 		} else if preparedResultMsg, ok := frm.Body.Message.(*message.PreparedResult); !ok { // TODO: Use prepared type data to disambiguate idempotency
